@@ -16,6 +16,8 @@ from vlib.common import PROVED, REFUTED, UNKNOWN
 def _function_of(name):
     if name.startswith("cencoding.time_shift"):
         return "cencoding.time_shift"
+    if name.startswith("convert.cast_"):
+        return "writer.convert"
     if name.startswith("converts_inplace."):
         return "converted_types.converts_inplace"
     if name.startswith("read_data_page_v2."):
@@ -35,7 +37,7 @@ def p_units(ctx):
     for a in U.ASSUMED:
         if a not in ctx.assumptions:
             ctx.assumptions.append(a)
-    side = {"C01": "both", "C02": "writer", "C03": "reader", "C04": "reader", "C05": "reader", "C11": "text"}.get(ctx.prop, "both")
+    side = {"C01": "both", "C02": "writer", "C03": "reader", "C04": "reader", "C05": "reader", "C11": "text", "C07": "cast", "C09": "cast"}.get(ctx.prop, "both")
     t0 = time.time()
     res = U.check(ctx, 10000 if ctx.tier == "quick" else 60000, side)
     in_region = {}
